@@ -53,7 +53,33 @@ func (k *KnownFinding) matches(f *Failure) bool {
 	return k.Property == f.Prop && k.Kind == f.Kind && reMatch(k.Harness, f.Pkg+"."+f.Harn) && reMatch(k.Site, f.Site) && reMatch(k.Label, f.Label)
 }
 
-var whenVar = regexp.MustCompile(`[$%][A-Za-z_][A-Za-z0-9_]*`)
+var whenVar = regexp.MustCompile(`[$%][A-Za-z_][A-Za-z0-9_]*(\.[0-9]+)?`)
+
+// knownClass is the disjunction of the input classes of every recorded finding that matches f and whose variables
+// are all bound on the current path ("" if none).
+func (e *Engine) knownClass(f *Failure) (string, string) {
+	var ws []string
+	what := ""
+	for i := range e.known {
+		k := &e.known[i]
+		if !k.matches(f) {
+			continue
+		}
+		if w, ok := k.instantiate(e); ok {
+			ws = append(ws, w)
+			if what == "" {
+				what = k.What
+			}
+		}
+	}
+	switch len(ws) {
+	case 0:
+		return "", ""
+	case 1:
+		return ws[0], what
+	}
+	return "(or " + strings.Join(ws, " ") + ")", what
+}
 
 // instantiate turns When into a solver term for the current path; false if a variable is not bound here.
 func (k *KnownFinding) instantiate(e *Engine) (string, bool) {
@@ -70,7 +96,11 @@ func (k *KnownFinding) instantiate(e *Engine) (string, bool) {
 			}
 			return lit(c)
 		}
-		n := "r/" + v[1:] + "@1"
+		tag, idx := v[1:], "1"
+		if i := strings.Index(tag, "."); i > 0 {
+			tag, idx = tag[:i], tag[i+1:]
+		}
+		n := "r/" + tag + "@" + idx
 		for _, d := range e.declared {
 			if d == n {
 				return n
